@@ -256,6 +256,13 @@ func decodeStructValue(field reflect.Value, fieldType reflect.StructField, value
 		 * and what multiline:"true" makes the writer produce) is
 		 * layout: only a string member keeps it */
 		value = strings.TrimSuffix(value, "\n")
+		if fieldType.Tag.Get("multiline") == "true" {
+			/* ... and so is the newline multiline:"true" puts in front
+			 * of the value to get its first line onto a line of its own:
+			 * the writer and reader take it off again on the way through
+			 * a file, a Paragraph from ConvertToParagraph still has it */
+			value = strings.TrimPrefix(value, "\n")
+		}
 	}
 	switch field.Type().Kind() {
 	case reflect.String:
